@@ -243,7 +243,9 @@ def check_case(case, res: Result):
                     rig.tick()
                 later = [e for e in rig.cmdlog[n_log1:] if e[3] == iid and e[1] in ("init", "exec")]
                 if later:
-                    mech = "C12.cancel_before_command_start_does_not_prevent_it" if (not was_live and not_started_yet) \
+                    shared = sum(1 for q_ in CR.REQS if q_[2] == iid) >= 2
+                    mech = "C12.two_requests_share_one_instance_id" if shared else \
+                        "C12.cancel_before_command_start_does_not_prevent_it" if (not was_live and not_started_yet) \
                         else "C12.cancelled_uod_command_executes_afterwards"
                     viol.append((mech, f"{descr} accepted, but instance {iid[:8]} has {later[0][1]} at tick {later[0][0]} "
                                  f"after the cancel (item states at request: {inst_states})"))
@@ -295,7 +297,14 @@ def check_case(case, res: Result):
                         break
                     if running >= 2 or rig.errors:
                         break
-                if done or running >= 2:
+                anc = {id(a) for a in node.parents}
+                aborted = any(e[6] in anc and ((e[1] == "block_ended" and e[5] is True) or
+                                               (e[1] == "interrupt_registered" and e[5] is False))
+                              for e in R.TRACE[n_tr0:])
+                if aborted and not done:
+                    # an enclosing Block ended / the enclosing interrupt was unregistered while the forced Wait was pending
+                    res.count("unjudged_force_wait_aborted_by_scope_end")
+                elif done or running >= 2:
                     judged = True
                     res.count("rule_force_wait")
                     if not done:
